@@ -3,6 +3,7 @@ package netp
 import (
 	"context"
 	"fmt"
+	"io"
 	"os"
 	"sync"
 	"testing"
@@ -96,6 +97,25 @@ type Opts struct {
 	TxManager  *bitcoin_reader.TxManager
 	Headers    *spyHeaders // shared between sessions when set
 	Peers      *spyPeers
+	// HeaderHandler installs an application header handler (SetHeaderHandler), as a user of the
+	// library that wants to see headers messages itself would: it parses count and headers from
+	// the tee'd stream until the stream ends.
+	HeaderHandler bool
+}
+
+// appHeaderHandler reads a headers payload the way an application handler does.
+func appHeaderHandler(ctx context.Context, header *wire.MessageHeader, r io.Reader) error {
+	count, err := wire.ReadVarInt(r, wire.ProtocolVersion)
+	if err != nil {
+		return err
+	}
+	buf := make([]byte, 81)
+	for i := uint64(0); i < count; i++ {
+		if _, err := io.ReadFull(r, buf); err != nil {
+			return err
+		}
+	}
+	return nil
 }
 
 type Session struct {
@@ -145,6 +165,9 @@ func Start(t failer, o Opts) *Session {
 	}
 	if o.TxManager != nil {
 		s.Node.SetTxManager(o.TxManager)
+	}
+	if o.HeaderHandler {
+		s.Node.SetHeaderHandler(appHeaderHandler)
 	}
 	go func() { s.done <- s.Node.Run(vt.Ctx(), s.interrupt) }()
 	if err := peer.Accept(10 * time.Second); err != nil {
